@@ -1,2 +1,2 @@
-import BddVerif.Drive.Algo4
-def main : IO Unit := B.Drive.runLoop B.Drive.Algo4.handle
+import BddVerif.Drive.Algo4Ext
+def main : IO Unit := B.Drive.runLoop B.Drive.Algo4Ext.handle
